@@ -1,3 +1,23 @@
-//! Kani contract harnesses for cfg (included from /repo/parser/src/cfg/mod.rs under cfg(kani)).
+//! Kani contract harnesses for parser/src/cfg/mod.rs (property C11: defsrc identity layer)
+//! (included from /repo/parser/src/cfg/mod.rs under cfg(kani)).
 #![allow(unused_imports, dead_code)]
 use super::*;
+
+/// B-K5: the defsrc layer maps every known code to itself and index 0 to no-op.
+/// The loop is concrete (KEYS_IN_ROW iterations); the inspected index is symbolic.
+#[kani::proof]
+#[kani::unwind(770)]
+fn c11_b_defsrc_identity() {
+    let layer = create_defsrc_layer();
+    let i: usize = kani::any();
+    kani::assume(i < KEYS_IN_ROW);
+    match layer[i] {
+        Action::KeyCode(kc) => {
+            assert!(i != 0);
+            assert!(kc as u16 as usize == i);
+            assert!(i <= 748);
+        }
+        Action::NoOp => assert!(i == 0 || i > 748),
+        _ => panic!("defsrc layer holds something other than a key or no-op"),
+    }
+}
